@@ -73,8 +73,8 @@ def ties(ctx):
     out.append(common.run_tie('layout-msval', [h, 'msval', str(ctx.seed + 100), _n(ctx, 20000, 400000)]))
     out.append(common.run_tie('layout-route', [hs, 'route', str(ctx.seed + 200), _n(ctx, 6000, 120000)]))
     out.append(common.run_tie('layout-matrix', [h, 'matrix', str(ctx.seed + 300), _n(ctx, 1500, 30000)]))
-    out.append(common.run_tie('layout-msenc', [hs, 'msenc', str(ctx.seed + 600), _n(ctx, 6000, 150000)]))
-    out.append(common.run_tie('layout-projdec', [h, 'projdec', str(ctx.seed + 700), _n(ctx, 4000, 100000)]))
+    out.append(common.run_tie('layout-msenc', [hs, 'msenc', str(ctx.seed + 600), _n(ctx, 6000, 100000)]))
+    out.append(common.run_tie('layout-projdec', [h, 'projdec', str(ctx.seed + 700), _n(ctx, 4000, 60000)]))
     return out
 
 
@@ -263,7 +263,7 @@ def search(ctx):
     eat(_run([h, 'search', str(seed), str(n)]), 'layout-search', 'harness: c10_layout search %d %d' % (seed, n))
     # (d) directed: multi-frame packets through the repacketizer path (40..120 ms, unconstrained VBR, 80..135 kb/s per stream,
     #     loud/quiet 20 ms blocks so that the sub-frame sizes of a stream straddle the 251/252-byte length-coding boundary)
-    n = 300 if ctx.quick else 6000
+    n = 300 if ctx.quick else 4000
     seed = ctx.seed + 500
     eat(_run([h, 'straddle', str(seed), str(n)]), 'layout-straddle', 'harness: c10_layout straddle %d %d' % (seed, n))
     # (e) corpus case (fixed defect 31272f65): projection decoder creation with a zero cell count, on which the code used to
